@@ -26,3 +26,38 @@ func Harness_merge_duplicates() {
 		}
 	}
 }
+
+// Harness_merge_many: a day that lists K distinct foods (K up to 20: past every small
+// capacity a merged list may start with) and repeats one of the foods listed so far after
+// pos of them: each distinct food once, in first-appearance order, and the repeated food
+// carries the sum of its two quantities.
+func Harness_merge_many() {
+	K := verifBound("K", 20)
+	names := make([]string, K)
+	for i := range names {
+		names[i] = "c" + string(rune('a'+i/5)) + "/f" + string(rune('a'+i))
+	}
+	pos := 1 + verifChoose("repeat-after", K)
+	which := verifChoose("repeated-food", pos)
+	raw := NewElements()
+	for i := 0; i < K; i++ {
+		raw.Add(names[i], verifFloat("qty"))
+		if i+1 == pos {
+			raw.Add(names[which], verifFloat("again"))
+		}
+	}
+	want := HDistinct(raw)
+	ln, err := NewLogNodeFromElements(HTime(0), raw, nil)
+	verifCover("merged")
+	verifAssert("lognode-no-error", err == nil && ln != nil)
+	if err != nil || ln == nil {
+		return
+	}
+	verifAssert("food-count", len(ln.Elements) == K && len(want) == K)
+	if len(ln.Elements) == len(want) {
+		for i, w := range want {
+			verifAssert("food-name-order", ln.Elements[i].Name == w.Name)
+			verifAssert("food-quantity", verifFloatEq(ln.Elements[i].Value, w.Qty))
+		}
+	}
+}
